@@ -22,7 +22,7 @@ ASSUMPTIONS = [
     'the de-duplication memory is read from Deduping._cache as {key: number of entries} (there is no public accessor)',
     'rewards are strictly positive (NEAT divides by the fitness sum)',
 ]
-BUDGET = {'quick': 360, 'thorough': 12000}
+BUDGET = {'quick': 240, 'thorough': 12000}
 
 KINDS = ['sweep', 'random', 'dd-sweep', 'dd-random', 're', 'hc', 'nsga2', 'neat', 'dd-re', 'dd-re-auto', 'dd-hc']
 DETERMINISTIC_NEXT = {'sweep', 'random', 'dd-sweep', 'dd-random'}
